@@ -60,6 +60,25 @@ fn main() {
 		out.write(dir).expect("write results");
 		return;
 	}
+	if args.len() >= 3 && args[1] == "chunker-after-error" {
+		// Calls Chunker::next again after it returned an Err item.
+		let data = util::unhex(&args[2]).expect("hex");
+		let mut it = xt::verif::yaml_chunker(Box::new(std::io::Cursor::new(data)));
+		loop {
+			match it.next() {
+				Some(Ok((t, _))) => println!("doc {:?}", t),
+				Some(Err(e)) => {
+					println!("err {e}; calling next() again…");
+					println!("second call returned {:?}", it.next().map(|r| r.map_err(|e| e.to_string())));
+					return;
+				}
+				None => {
+					println!("end");
+					return;
+				}
+			}
+		}
+	}
 	if args.len() >= 6 && args[1] == "x" {
 		// xtverif x <from|auto> <to> <slice|reader|reader1> <hex>[/<hex>...]: one Translator, one call per hex.
 		let from = xtapi::Fmt::from_name(&args[2]);
